@@ -1,7 +1,9 @@
 import Postcard.Props.C08
+import Postcard.Props.EndToEnd
 -- property theorems of C08: every one must depend only on propext / Classical.choice / Quot.sound
 #print axioms Postcard.feed_conserves
 #print axioms Postcard.feed_conserves_rem
 #print axioms Postcard.acc_delivers_from
 #print axioms Postcard.acc_delivers
 #print axioms Postcard.acc_delivers_chunking_irrelevant
+#print axioms Postcard.acc_delivers_values
